@@ -118,15 +118,6 @@ Theorem mie_mirror_sphere_axes : forall (s1 s2 pref erad : cplx R) ct st cp sp p
     cmir_x RO (mie_assemble RO (sphere_S s1 s2) pref erad ct st cp sp (0, p)).
 Proof. exact mie_mirror_sphere. Qed.
 Print Assumptions mie_mirror_sphere_axes.
-(* T-matrix theory: the postfactor cancels incfield for the fixed polarisation (1,0) *)
-Theorem tmatrix_postfactor : forall (M : smat R) (pref : cplx R) ct st cp sp,
-  cp * cp + sp * sp = 1 ->
-  tmatrix_assemble RO M pref ct st cp sp =
-  let '(m11, m12, m21, m22) := M in
-  fieldstocart RO (cmul RO pref m11, cneg RO (cmul RO pref m21)) ct st cp sp.
-Proof. exact tmatrix_postfactor_collapse. Qed.
-Print Assumptions tmatrix_postfactor.
-
 (** ** MieLens *)
 Theorem mielens_rot_cov : forall (I0 I2 K : cplx R) cp sp cg sg ca sa, ca * ca + sa * sa = 1 ->
   mielens_assemble RO I0 I2 (cp * ca - sp * sa) (sp * ca + cp * sa) (cg * ca - sg * sa) (sg * ca + cg * sa) K =
